@@ -386,6 +386,10 @@ func (h *RealtimeHandler) HandleEntityUpdatePose(ctx context.Context, msg hwebso
 		return nil
 	}
 
+	if update.Pose == nil {
+		return nil
+	}
+
 	entity.SetPose(models.Pose{
 		PX: update.Pose.Px,
 		PY: update.Pose.Py,
